@@ -147,10 +147,8 @@ Definition model_flags (c : cfg) (p : list Z) : Z := model_flags_with (the_entri
 
 (* ------------------------------------------------------------------------------------------------ *)
 (* SPEC (the property statement, per element of the preselected window) *)
-Definition wlo (w : option (Z * Z)) : Z := match w with Some (lo, _) => lo | None => 0 end.
 Definition gpos (c : cfg) (p : list Z) : list Z :=
   map (fun wx => wlo (fst wx) + snd wx) (combine (pad_win (c_win c) (List.length p)) p).
-Definition chunk_start (cs : list Z) (x : Z) : Z := cstart cs (fst (loc cs 0 x)).
 Definition chunk_id (chs : list (list Z)) (g : list Z) : list Z :=
   map (fun cx => chunk_start (fst cx) (snd cx)) (combine chs g).
 Definition own (c : cfg) (a : nat) (p : list Z) : list Z := firstn (List.length (arr_chunks c a)) p.
